@@ -218,3 +218,60 @@ func checkLinearizable(stamps []Stamp, ch, capacity int) (res porcupine.CheckRes
 	r, _ := porcupine.CheckOperationsVerbose(qModel(capacity), ops, 30*time.Second)
 	return r, len(ops), ""
 }
+
+// realTimeOrder: values of one sender are dequeued in the order they were enqueued, whoever
+// receives them. With deq(i) ∈ [call_i, ret_i] of the receive that returned message i, message j
+// (j > i, same sender) may not have been received wholly before the receive of i was called.
+// Sound for every capacity and every receive style (iteration only widens the intervals).
+func realTimeOrder(stamps []Stamp, ch int, decode func(v any) (sid, seq int, ok bool)) (ok bool, detail string) {
+	type iv struct{ call, ret int64 }
+	open := map[int]int64{}
+	per := map[int]map[int]iv{} // sender -> seq -> interval of the first receive that returned it
+	for _, s := range stamps {
+		if s.Ch != ch {
+			continue
+		}
+		switch s.Kind {
+		case "rc":
+			open[s.G] = s.T
+		case "rr":
+			c, has := open[s.G]
+			delete(open, s.G)
+			if !has || s.V == nil {
+				continue
+			}
+			sid, seq, ok := decode(s.V)
+			if !ok {
+				continue
+			}
+			if per[sid] == nil {
+				per[sid] = map[int]iv{}
+			}
+			if _, dup := per[sid][seq]; !dup {
+				per[sid][seq] = iv{c, s.T}
+			}
+		}
+	}
+	for sid, m := range per {
+		maxSeq := -1
+		for q := range m {
+			if q > maxSeq {
+				maxSeq = q
+			}
+		}
+		minRet, minSeq := int64(1<<62), -1
+		for q := maxSeq; q >= 0; q-- {
+			x, has := m[q]
+			if !has {
+				continue
+			}
+			if minRet < x.call {
+				return false, fmt.Sprintf("sender %d: message %d was received during stamps [%d,%d], but its later message %d had already been received by stamp %d", sid, q, x.call, x.ret, minSeq, minRet)
+			}
+			if x.ret < minRet {
+				minRet, minSeq = x.ret, q
+			}
+		}
+	}
+	return true, ""
+}
